@@ -230,6 +230,23 @@ def step_newgame(tier, seed, ctx):
         return res
     cnt = 0
     rep_cnt = 0
+    # fixed scenarios first: state that a position command (not only a search) leaves behind, games with repeated positions,
+    # the same position line again after the new game
+    shuffle = "position startpos moves g1f3 g8f6 f3g1 f6g8 g1f3 g8f6 f3g1 f6g8"
+    game = "position startpos moves e2e4 e7e5 g1f3"
+    fixed = [([shuffle], ["go depth 4"]), ([shuffle], ["position startpos", "go depth 4"]), ([shuffle, "go depth 3"], ["go depth 4"]),
+             ([game, "go depth 3"], [game, "go depth 3"]), ([game], [game, "go depth 3"]),
+             (["position fen 4k3/8/8/8/q7/8/8/6K1 b - - 0 1 moves a4a5 g1h1 a5a6 h1g1 a6a5 g1h1 a5a6 h1g1", "go depth 3"], ["position fen 4k3/8/8/8/q7/8/8/6K1 b - - 0 1 moves a4a5 g1h1", "go depth 4"])]
+    for p, s_ in fixed:
+        a, rca = run_engine(exe, p + ["ucinewgame"] + s_)
+        b, rcb = run_engine(exe, s_)
+        res["evaluations"] += 2
+        res["spec_compared"] += 1
+        cnt += 1
+        tail = a[len(a) - len(b):] if len(b) <= len(a) else None
+        if tail != b or rca != rcb:
+            res["violations"].append({"kind": "ucinewgame-not-fresh", "prefix": p, "suffix": s_, "first_difference (a=after ucinewgame, b=fresh process)": first_diff(tail or a, b),
+                                      "suffix_output_after_newgame": (tail or a)[-10:], "suffix_output_fresh_process": b[-10:]})
     for (p, _), (s, _) in zip(pre, suf):
         p = [l for l in p if l.split()[:1] != ["quit"]]
         s = [l for l in s if l.split()[:1] != ["quit"]]
@@ -423,6 +440,78 @@ def step_after_timed(tier, seed, ctx):
     return res
 
 
+def step_clock_go(tier, seed, ctx):
+    """C12 black-box: a go that names the mover's clock is answered before that clock would run out (plus a fixed tolerance),
+    whatever else the command carries (increments, a depth cap after the clocks, the opponent's values) and however small the
+    remaining time is — the allocation itself must never lose on time."""
+    res = {"name": "blackbox-clock-go", "violations": [], "broken": [], "evaluations": 0, "distinct_nontrivial": 0, "samples": [], "distribution": {}, "spec_compared": 0}
+    exe, err = build_engine(ctx)
+    if exe is None:
+        res["broken"].append("real binary does not build from /repo: " + err)
+        return res
+    tol_ms = 400
+    wfen = "r1bqkbnr/pppp1ppp/2n5/4p3/4P3/5N2/PPPP1PPP/RNBQKB1R w KQkq - 2 3"
+    bfen = "r1bqkbnr/pppp1ppp/2n5/4p3/2B1P3/5N2/PPPP1PPP/RNBQK2R b KQkq - 3 3"
+    cases = [(wfen, "go wtime 4000 btime 4000", 4000), (wfen, "go wtime 2000 btime 2000 winc 100 binc 100 depth 40", 2000),
+             (bfen, "go wtime 60000 btime 1500 winc 0 binc 0", 1500), (wfen, "go wtime 300 btime 300", 300),
+             (bfen, "go binc 50 winc 5000 btime 900 wtime 900000", 900), (wfen, "go wtime 0 btime 0", 0), (wfen, "go depth 30 wtime 1200 btime 1200", 1200)]
+    if tier != "quick":
+        cases += [(wfen, "go wtime 10000 btime 10000 winc 0 binc 0", 10000), (bfen, "go wtime 1 btime 1 winc 1 binc 1", 1), (wfen, "go movestogo 40 wtime 2500 btime 2500", 2500)]
+    worst = None
+    for fen, cmd, own in cases:
+        late = []
+        for attempt in range(3):
+            p = subprocess.Popen([exe], stdin=subprocess.PIPE, stdout=subprocess.PIPE, stderr=subprocess.DEVNULL, text=True, bufsize=1)
+            got, dt = None, None
+            try:
+                p.stdin.write("position fen %s\nisready\n" % fen)
+                p.stdin.flush()
+                while True:
+                    ln = p.stdout.readline()
+                    if not ln or ln.strip() == "readyok":
+                        break
+                wd = threading.Timer((own + tol_ms) / 1000.0 + 3.0, p.kill)
+                wd.start()
+                t0 = time.time()
+                p.stdin.write(cmd + "\n")
+                p.stdin.flush()
+                while True:
+                    ln = p.stdout.readline()
+                    if not ln:
+                        break
+                    if ln.startswith("bestmove"):
+                        got = ln.strip()
+                        break
+                wd.cancel()
+                dt = (time.time() - t0) * 1000.0
+            finally:
+                try:
+                    p.stdin.write("quit\n")
+                    p.stdin.flush()
+                except Exception:
+                    pass
+                try:
+                    p.wait(timeout=5)
+                except Exception:
+                    p.kill()
+            res["evaluations"] += 1
+            res["spec_compared"] += 1
+            if got is not None and dt <= own + tol_ms:
+                margin = own + tol_ms - dt
+                worst = margin if worst is None else min(worst, margin)
+                if len(res["samples"]) < 3:
+                    res["samples"].append({"fen": fen, "command": cmd, "own_clock_ms": own, "answered_after_ms": round(dt, 1), "answer": got})
+                late = []
+                break
+            late.append(None if got is None else round(dt, 1))
+        if late:
+            res["violations"].append({"kind": "answer-after-own-clock-ran-out", "fen": fen, "command": cmd, "own_clock_ms": own, "tolerance_ms": tol_ms,
+                                      "answered_after_ms (None = no answer, killed)": late})
+    res["distinct_nontrivial"] = len(cases)
+    res["distribution"] = {"blackbox_clock_go": {"commands": len(cases), "tolerance_ms": tol_ms, "smallest_margin_ms": None if worst is None else round(worst, 1)}}
+    return res
+
+
 EXPLOSIVE = [
     "8/PPPPPPPP/8/2k5/8/2K5/pppppppp/8 w - - 0 1",
     "r3k2r/p1ppqpb1/bn2pnp1/3PN3/1p2P3/2N2Q1p/PPPBBPPP/R3K2R w KQkq - 0 1",
@@ -444,8 +533,12 @@ def step_latency(tier, seed, ctx):
     # short one exposes deadline state that survives from one search to the next)
     sessions = [[20], [60]] if tier == "quick" else [[10], [20], [60], [150], [400]]
     long_short = [[1000, 20]] if tier == "quick" else [[1000, 20], [2500, 10, 60], [600, 600, 5]]
+    # a dead-quiet position (locked pawn wall, no capture, promotion or check anywhere near): quiescence nodes have nothing to loop
+    # over, so a deadline that is only looked at inside quiescence loops is noticed late
+    quiet = "b1b1k1b1/8/8/1p1p1p1p/pPpPpPpP/P1P1P1P1/8/B1B1K1B1 w - - 0 1"
+    quiet_sessions = [[1500]] if tier == "quick" else [[700], [1500], [2400]]
     worst = 0.0
-    plan = [(fen, sess) for fen in EXPLOSIVE for sess in sessions] + [(fen, sess) for fen in (EXPLOSIVE[3], EXPLOSIVE[4]) for sess in long_short]
+    plan = [(fen, sess) for fen in EXPLOSIVE for sess in sessions] + [(fen, sess) for fen in (EXPLOSIVE[3], EXPLOSIVE[4]) for sess in long_short] + [(quiet, sess) for sess in quiet_sessions]
     def run_session(fen, sess):
         """one process, the budgets of `sess` one after the other; returns (violation or None, [samples], worst overshoot)"""
         viol, samples, worst_here = None, [], 0.0
@@ -514,7 +607,7 @@ def step_latency(tier, seed, ctx):
             v["attempts"] = [a[0]["answered_after_ms"] for a in attempts]
             res["violations"].append(v)
             worst = max(worst, max(a[1] for a in attempts))
-    budgets = sessions + long_short
+    budgets = sessions + long_short + quiet_sessions
     res["distinct_nontrivial"] = res["evaluations"]
     res["distribution"] = {"blackbox_latency": {"max_overshoot_ms": round(worst, 1), "bound_ms": bound_ms, "positions": len(EXPLOSIVE), "budgets_ms": budgets, "sessions_repeated_after_a_late_answer": retried}}
     return res
